@@ -67,7 +67,7 @@ theorem no_two_addresses_share_name (s : State N A) (h : Inverse s) (a₁ a₂ :
   have e₂ := (h n a₂).mpr h₂
   rw [e₁] at e₂; exact Option.some.inj e₂
 
-/-- an operation that is rejected (`NamerError`) or reports no change (`False`) leaves BOTH mappings
+/-- an operation that is rejected (any exception: `NamerError`, or `TypeError` for an unhashable argument) or reports no change (`False`) leaves BOTH mappings
 literally unchanged -/
 theorem rejected_or_nochange_is_identity (s : State N A) (op : Op N A) (h : Inverse s)
     (hr : (∃ e, (step s op).2 = .error e) ∨ (step s op).2 = .ok (.bool false)) : (step s op).1 = s := by
@@ -75,8 +75,22 @@ theorem rejected_or_nochange_is_identity (s : State N A) (op : Op N A) (h : Inve
   rcases hr with ⟨e, he⟩ | hf
   · cases e with
     | namerError => exact hid (Or.inl he)
+    | typeError => exact hid (Or.inr (Or.inl he))
     | keyError => exact absurd he hk
-  · exact hid (Or.inr hf)
+  · exact hid (Or.inr (Or.inr hf))
+
+/-- an argument that cannot be hashed (a list, a dict) is rejected with `TypeError` or reported as no change — never
+accepted — by every operation that would have to look it up, before anything is written -/
+theorem unhashable_argument_never_accepted (s : State N A) (n : N) (a : A)
+    (hu : hashable n = false ∨ hashable a = false) :
+    (add s n a).2 ≠ .ok (.bool true) ∧ (chgAddr s n a).2 ≠ .ok (.bool true) ∧ (chgName s a n).2 ≠ .ok (.bool true) ∧
+    (add s n a).1 = s ∧ (chgAddr s n a).1 = s ∧ (chgName s a n).1 = s := by
+  refine ⟨?_, ?_, ?_, ?_, ?_, ?_⟩
+  all_goals
+    first
+      | (unfold add; rcases hu with hu | hu <;> simp only [hu] <;> (repeat' split) <;> simp_all)
+      | (unfold chgAddr; rcases hu with hu | hu <;> simp only [hu] <;> (repeat' split) <;> simp_all)
+      | (unfold chgName; rcases hu with hu | hu <;> simp only [hu] <;> (repeat' split) <;> simp_all)
 
 /-- the `del` statements of `remNameAddr` / `change…` never raise `KeyError` (so no operation can stop half-way
 and leave a partial update behind) -/
@@ -94,53 +108,77 @@ theorem keys_unique_history (ops : List (Op N A)) (s : State N A) (h : Wf s) : W
 theorem add_true_spec (s : State N A) (n : N) (a : A) (h : (add s n a).2 = .ok (.bool true)) :
     (∀ n', (add s n a).1.n2a.get n' = if n = n' then some a else s.n2a.get n') ∧
     (∀ a', (add s n a).1.a2n.get a' = if a = a' then some n else s.a2n.get a') ∧
-    s.n2a.get n = none ∧ s.a2n.get a = none ∧ truthy n = true ∧ truthy a = true := by
-  unfold add at h ⊢
-  repeat' split at h
-  all_goals first | (simp at h; done) | skip
-  rename_i ht _ h1 _ h2
-  simp only [ht, h1, h2]
-  simp at ht
-  exact ⟨fun n' => Map.get_set _ _ _ _, fun a' => Map.get_set _ _ _ _, trivial, trivial, ht.1, ht.2⟩
+    s.n2a.get n = none ∧ s.a2n.get a = none ∧ truthy n = true ∧ truthy a = true ∧
+    hashable n = true ∧ hashable a = true := by
+  by_cases ht : (!truthy n || !truthy a) = true
+  · simp [add, ht] at h
+  · have hn : truthy n = true := by simp at ht; exact ht.1
+    have ha : truthy a = true := by simp at ht; exact ht.2
+    cases hhn : hashable n with
+    | false => simp [add, hn, ha, hhn] at h
+    | true =>
+      cases h1 : s.n2a.get n with
+      | some a' =>
+        by_cases e : a = a'
+        · subst e; simp [add, hn, ha, hhn, h1] at h
+        · simp [add, hn, ha, hhn, h1, e] at h
+      | none =>
+        cases hha : hashable a with
+        | false => simp [add, hn, ha, hhn, h1, hha] at h
+        | true =>
+          cases h2 : s.a2n.get a with
+          | some n' =>
+            by_cases e : n = n'
+            · subst e; simp [add, hn, ha, hhn, h1, hha, h2] at h
+            · simp [add, hn, ha, hhn, h1, hha, h2, e] at h
+          | none =>
+            have ex : add s n a = (⟨s.n2a.set n a, s.a2n.set a n⟩, .ok (.bool true)) := by
+              simp [add, hn, ha, hhn, h1, hha, h2]
+            rw [ex]
+            exact ⟨fun n' => Map.get_set _ _ _ _, fun a' => Map.get_set _ _ _ _, rfl, rfl, hn, ha, rfl, rfl⟩
 
 /-- what a successful `remNameAddr` does: the named entry disappears in both directions, everything else untouched -/
 theorem rem_true_spec (s : State N A) (hi : Inverse s) (n : N) (a : A) (h : (rem s n a).2 = .ok (.bool true)) :
     ∃ n₀ a₀, s.n2a.get n₀ = some a₀ ∧ (truthy n = true → n₀ = n) ∧ (truthy a = true → a₀ = a) ∧
       (∀ n', (rem s n a).1.n2a.get n' = if n₀ = n' then none else s.n2a.get n') ∧
       (∀ a', (rem s n a).1.a2n.get a' = if a₀ = a' then none else s.a2n.get a') := by
-  unfold rem at h ⊢
-  split
-  · rename_i hn
-    simp only [hn, ↓reduceIte] at h
-    split
-    · rename_i h0; simp [h0] at h
-    · rename_i a' h0
-      simp only [h0] at h ⊢
-      generalize hg : (if (!truthy a) = true then a' else a) = b at h ⊢
-      by_cases hb : b = a'
-      · subst hb
-        simp only [ne_eq, not_true_eq_false, ↓reduceIte, delBoth_spec s hi n b h0] at h ⊢
-        refine ⟨n, b, h0, fun _ => rfl, fun ha => ?_, fun n' => Map.get_drop _ _ _, fun a'' => Map.get_drop _ _ _⟩
-        simp only [ha, Bool.not_true, Bool.false_eq_true, ↓reduceIte] at hg
-        exact hg.symm
-      · simp only [ne_eq, hb, not_false_eq_true, ↓reduceIte] at h
-        cases h
-  · rename_i hn
-    simp only [hn] at h ⊢
-    split
-    · rename_i ha
-      simp only [ha, ↓reduceIte] at h
-      split
-      · rename_i h0; simp [h0] at h
-      · rename_i n' h0
-        have h' := (hi n' a).mpr h0
-        rw [delBoth_spec s hi n' a h']
-        exact ⟨n', a, h', fun c => absurd c (by simp), fun _ => rfl, fun _ => Map.get_drop _ _ _, fun _ => Map.get_drop _ _ _⟩
-    · rename_i ha; simp [ha] at h
+  by_cases hn : truthy n = true
+  · cases hhn : hashable n with
+    | false => simp [rem, hn, hhn] at h
+    | true =>
+      cases h0 : s.n2a.get n with
+      | none => simp [rem, hn, hhn, h0] at h
+      | some a' =>
+        cases hta : truthy a with
+        | false =>
+          have ex : rem s n a = delBoth s n a' := by simp [rem, hn, hhn, h0, hta]
+          rw [ex, delBoth_spec s hi n a' h0]
+          exact ⟨n, a', h0, fun _ => rfl, fun c => by simp at c, fun n' => Map.get_drop _ _ _, fun a'' => Map.get_drop _ _ _⟩
+        | true =>
+          by_cases e : a = a'
+          · subst e
+            have ex : rem s n a = delBoth s n a := by simp [rem, hn, hhn, h0, hta]
+            rw [ex, delBoth_spec s hi n a h0]
+            exact ⟨n, a, h0, fun _ => rfl, fun _ => rfl, fun n' => Map.get_drop _ _ _, fun a'' => Map.get_drop _ _ _⟩
+          · have ex : rem s n a = (s, .ok (.bool false)) := by simp [rem, hn, hhn, h0, hta, e]
+            rw [ex] at h; simp at h
+  · by_cases ha : truthy a = true
+    · cases hha : hashable a with
+      | false => simp [rem, hn, ha, hha] at h
+      | true =>
+        cases h0 : s.a2n.get a with
+        | none => simp [rem, hn, ha, hha, h0] at h
+        | some n' =>
+          have h' := (hi n' a).mpr h0
+          have ex : rem s n a = delBoth s n' a := by simp [rem, hn, ha, hha, h0]
+          rw [ex, delBoth_spec s hi n' a h']
+          exact ⟨n', a, h', fun c => absurd c hn, fun _ => rfl, fun _ => Map.get_drop _ _ _, fun _ => Map.get_drop _ _ _⟩
+    · simp [rem, hn, ha] at h
 
 /-! ### non-vacuity -/
 
-instance : Truthy Nat := ⟨fun k => k != 0⟩
+/-- test instance: `0` is falsy, numbers `≥ 100` stand for unhashable arguments -/
+instance : Truthy Nat := ⟨fun k => k != 0, fun k => k < 100⟩
 
 /-- a concrete reachable non-empty inverse state, on which a rejected op, a no-change op and a successful
 change are all exercised -/
@@ -150,5 +188,7 @@ example : (step (run (empty : State Nat Nat) [.add 1 10, .add 2 20]) (.add 3 10)
 example : (step (run (empty : State Nat Nat) [.add 1 10, .add 2 20]) (.chgAddr 1 10)).2 = .ok (.bool false) := by rfl
 example : (step (run (empty : State Nat Nat) [.add 1 10, .add 2 20]) (.chgName 10 3)).2 = .ok (.bool true) := by rfl
 example : (rem (run (empty : State Nat Nat) [.add 1 10, .add 2 20]) 0 20).2 = .ok (.bool true) := by rfl
+example : (step (run (empty : State Nat Nat) [.add 1 10, .add 2 20]) (.add 3 100)).2 = .error .typeError := by rfl
+example : (step (run (empty : State Nat Nat) [.add 1 10, .add 2 20]) (.rem 1 100)).2 = .ok (.bool false) := by rfl
 
 end Hio.Namer
